@@ -250,8 +250,9 @@ pub enum SupKind {
 #[derive(Clone, Debug, PartialEq, Eq, Serialize, Deserialize)]
 pub enum Op {
     Spawn(u8),
-    /// spawn, but drop the spawn future after `k` polls
-    SpawnCut(u8, u8),
+    /// spawn, but stop polling the spawn future after `k`+1 polls, hold it un-polled for `hold`
+    /// more steps, then drop it
+    SpawnCut(u8, u8, u8),
     AwaitStart(u8),
     Cast { to: u8, seq: u32 },
     WrongCast(u8),
@@ -884,22 +885,29 @@ pub async fn do_spawn(w: &Arc<World>, idx: usize, default_parent: Option<ActorCe
     }
 }
 
-/// Polls `fut` at most `k` times, then drops it (cut-point injection)
+/// Polls `fut` at most `k` times, then holds it un-polled for `hold` further polls of this
+/// wrapper (one gate step each) and finally drops it (cut-point injection)
 pub struct CutAfter<F> {
     fut: Option<Pin<Box<F>>>,
     left: u32,
+    hold: u32,
 }
 impl<F: Future> CutAfter<F> {
-    pub fn new(fut: F, k: u32) -> Self {
-        Self { fut: Some(Box::pin(fut)), left: k }
+    pub fn new(fut: F, k: u32, hold: u32) -> Self {
+        Self { fut: Some(Box::pin(fut)), left: k, hold }
     }
 }
 impl<F: Future> Future for CutAfter<F> {
     type Output = Option<F::Output>;
     fn poll(mut self: Pin<&mut Self>, cx: &mut Context<'_>) -> Poll<Self::Output> {
         if self.left == 0 {
-            self.fut = None;
-            return Poll::Ready(None);
+            if self.hold == 0 {
+                self.fut = None;
+                return Poll::Ready(None);
+            }
+            self.hold -= 1;
+            cx.waker().wake_by_ref();
+            return Poll::Pending;
         }
         self.left -= 1;
         let r = self.fut.as_mut().unwrap().as_mut().poll(cx);
@@ -910,10 +918,8 @@ impl<F: Future> Future for CutAfter<F> {
             }
             Poll::Pending => {
                 if self.left == 0 {
-                    self.fut = None;
-                    // make sure we get polled again to report the cut
+                    // make sure we get polled again to hold / report the cut
                     cx.waker().wake_by_ref();
-                    self.left = 0;
                 }
                 Poll::Pending
             }
@@ -950,10 +956,10 @@ pub async fn exec_op(w: &Arc<World>, c: usize, i: usize, op: &Op) -> Res {
     }
     match op {
         Op::Spawn(idx) => do_spawn(w, *idx as usize, None).await,
-        Op::SpawnCut(idx, k) => {
+        Op::SpawnCut(idx, k, hold) => {
             let w2 = w.clone();
             let idx = *idx as usize;
-            match CutAfter::new(async move { do_spawn(&w2, idx, None).await }, *k as u32 + 1).await {
+            match CutAfter::new(async move { do_spawn(&w2, idx, None).await }, *k as u32 + 1, *hold as u32).await {
                 Some(r) => r,
                 None => {
                     let mut slots = w.slots.lock().unwrap();
